@@ -704,6 +704,17 @@ class Interp:
                     pass
             if e.id in BUILTIN_TYPES:
                 return [(Const(BUILTIN_TYPES[e.id]), st)]
+            ge = getattr(self, "global_exprs", None)
+            if ge and e.id in ge and e.id not in getattr(self, "_ge_busy", ()):
+                # a module-level binding the resolver cannot fold (a record built once: NO_MATCH = SlotMatch(False)): its expression,
+                # evaluated in an empty frame
+                self._ge_busy = set(getattr(self, "_ge_busy", ())) | {e.id}
+                try:
+                    r_ = self.eval(ge[e.id], State())
+                finally:
+                    self._ge_busy = self._ge_busy - {e.id}
+                if len(r_) == 1 and isinstance(r_[0][0], Const):
+                    return [(r_[0][0], st)]
             return [(Unknown(e.id), st)]
         if isinstance(e, ast.Attribute):
             key = self.attr_key(e)
@@ -712,6 +723,11 @@ class Interp:
             if isinstance(e.value, ast.Name) and e.value.id == "re" and "re" not in st.env and e.attr in RE_FLAGS:
                 return [(Const(getattr(_re, e.attr)), st)]
             if isinstance(e.value, ast.Name) and e.value.id == self.selfname:
+                hk = getattr(self, "self_attr_hook", None)
+                if hk is not None:
+                    r_ = hk(self, e, st)  # a property of the object's own class, read through self
+                    if r_ is not None:
+                        return r_
                 return [(Unknown(norm(e)), st)]
             res = []
             for v, s in self.eval(e.value, st):
@@ -1245,7 +1261,7 @@ class Interp:
                      loop_unroll=self.loop_unroll, depth=self.depth + 1, max_depth=self.max_depth,
                      exc_bases=self.exc_bases, resolve=self.resolve, selfname=self_param)
         sub.unknowns = self.unknowns
-        for hk in ("getattr_hook", "yield_hook", "exc_fields", "record_types"):
+        for hk in ("getattr_hook", "yield_hook", "exc_fields", "record_types", "self_attr_hook", "global_exprs"):
             if getattr(self, hk, None) is not None:
                 setattr(sub, hk, getattr(self, hk))
         params = list(func.params)
@@ -1266,8 +1282,8 @@ class Interp:
                 if k.startswith(caller_self + "."):
                     inner.env[callee_self + k[len(caller_self):]] = v
         for k, v in st.env.items():
-            if k.startswith("@"):
-                inner.env[k] = v  # scenario state kept by oracles (cursors, buffers), pending exception values
+            if k.startswith("@") or _class_attr_key(k):
+                inner.env[k] = v  # scenario state kept by oracles (cursors, buffers), pending exception values; class attributes (process-wide)
         out = []
         is_gen = any(isinstance(n_, (ast.Yield, ast.YieldFrom)) for n_ in ast.walk(func.node)) and getattr(self, "yield_hook", None) is None
         n0 = len(st.events)
@@ -1292,10 +1308,15 @@ class Interp:
             for k in [k for k in s2.env if k.startswith("@")]:
                 del s2.env[k]
             for k, v in p.env.items():
-                if k.startswith("@"):
+                if k.startswith("@") or _class_attr_key(k):
                     s2.env[k] = v
             out.append((Exc(p.value, p.node) if p.kind == "raise" else p.value, s2))
         return out
+
+
+def _class_attr_key(k):
+    """`ClassName.attr` given by a scenario: state of the process, seen by every function"""
+    return "." in k and k[0].isupper() and k.split(".", 1)[0].isidentifier()
 
 
 def _as_load(t):
